@@ -199,6 +199,8 @@ class TestPxssh(PX.pxssh):
             timeout = self.timeout
         d = self.srv.read(size, timeout)
         self.seen += d
+        if getattr(self, 'prompt_reads', None) is not None:
+            self.prompt_reads.append(d)
         d = d.encode('latin-1')
         d = self._decoder.decode(d, final=False)
         self._log(d, 'read')
@@ -290,6 +292,9 @@ def run_case(case):
         # after a successful login with the unique prompt: prompt() must delimit each command's output
         cmds = []
         if out['res'] == 'ok' and o['reset']:
+            b0 = p.buffer
+            out['pending_at_login'] = b0.decode('latin-1') if isinstance(b0, bytes) else b0
+            p.prompt_reads = []
             for c in case.get('commands', []):
                 rec = dict(cmd=c)
                 try:
@@ -303,6 +308,7 @@ def run_case(case):
                 except Exception as e:   # noqa
                     rec['ok'] = 'EXC:' + type(e).__name__
                 cmds.append(rec)
+            out['prompt_reads'] = list(p.prompt_reads)
         out['cmds'] = cmds
         return out
     finally:
@@ -680,6 +686,25 @@ def run(ctx):
             if real != mo:
                 ctx.broken.append('correspondence pxssh model vs pexpect.pxssh.login on %s: model %r real %r' % (json.dumps(c)[:300], mo, real))
                 break
+    # prompt(): the reads of the post-login commands through PxP.promptSeq (also validates "PROMPT = the two strings it denotes")
+    plines, pidx = [], []
+    for k, (c, out) in enumerate(zip(cases, outs)):
+        cm = out.get('cmds') or []
+        if cm and all(r.get('ok') is True for r in cm) and out.get('pending_at_login') == '' and (not c.get('encoding')):
+            plines.append('PP %d @ %s' % (len(cm), ' '.join('d=' + enc(d) for d in out['prompt_reads'])))
+            pidx.append(k)
+    try:
+        pouts = common.run_model(plines) if plines else []
+        for k, ml in zip(pidx, pouts):
+            cm = outs[k]['cmds']
+            want = ' | '.join('hit 0 b=%s' % enc(r['before']) for r in cm)
+            got = ' | '.join(x.split(' a=')[0] for x in ml.split(' | ')[:-1])
+            if want != got:
+                ctx.broken.append('correspondence prompt() model vs pxssh.prompt on %s: model %r real %r' % (json.dumps(cases[k])[:200], got[:200], want[:200]))
+                break
+        ctx.cov['prompt_sessions_replayed'] = len(plines)
+    except common.ModelUnavailable:
+        pass
     # levenshtein / similarity decision: model vs real method
     lv = []
     px = PX.pxssh.__new__(PX.pxssh)
